@@ -119,12 +119,20 @@ func (c *Channel) withdrawSubChannel(ctx context.Context, sub *Channel) error {
 	return errors.WithMessage(err, "update parent channel")
 }
 
-func (c *Channel) registerSubChannelFunding(id channel.ID, alloc []channel.Bal) {
+func (c *Channel) registerSubChannelFunding(id channel.ID, bals channel.Balances) {
 	filter := func(cu ChannelUpdate) bool {
-		expected := *channel.NewSubAlloc(id, alloc, nil)
+		expected := *channel.NewSubAlloc(id, bals.Sum(), nil)
 		_, containedBefore := c.machine.State().SubAlloc(expected.ID)
 		subAlloc, containedAfter := cu.State.SubAlloc(expected.ID)
-		return !containedBefore && containedAfter && expected.Equal(&subAlloc) == nil
+		if containedBefore || !containedAfter || expected.Equal(&subAlloc) != nil {
+			return false
+		}
+		// Each participant must pay exactly its own share of the sub-channel.
+		cur := c.machine.State().Balances
+		if len(cur) != len(bals) || cur.AssertGreaterOrEqual(bals) != nil {
+			return false
+		}
+		return cur.Sub(bals).Equal(cu.State.Balances)
 	}
 	ui := newUpdateInterceptor(filter)
 	c.subChannelFundings.Register(id, ui)
